@@ -1,14 +1,14 @@
 package main
 
 import (
-	"github.com/mmcloughlin/avo/x86"
-	"github.com/mmcloughlin/avo/operand"
-	"sort"
 	"fmt"
+	"github.com/mmcloughlin/avo/operand"
+	"github.com/mmcloughlin/avo/x86"
 	"go/ast"
 	"go/parser"
 	"go/token"
 	"path/filepath"
+	"sort"
 	"strings"
 
 	"github.com/mmcloughlin/avo/ir"
@@ -282,10 +282,18 @@ func cfgCorpus() []*Prog {
 		mk("duplicate label pending before the same instruction: a: a: NOP", func(add func(ir.Node)) { add(ir.Label("a")); add(ir.Label("a")); add(nop()); add(ret()) }),
 		mk("duplicate label separated by an instruction", func(add func(ir.Node)) { add(ir.Label("a")); add(nop()); add(ir.Label("a")); add(ret()) }),
 		mk("duplicate label separated by a comment only", func(add func(ir.Node)) {
-			add(ir.Label("a")); add(ir.NewComment("x")); add(ir.Label("a")); add(nop())
+			add(ir.Label("a"))
+			add(ir.NewComment("x"))
+			add(ir.Label("a"))
+			add(nop())
 		}),
 		mk("consecutive labels", func(add func(ir.Node)) {
-			add(br("JMP", "b", false)); add(ir.Label("a")); add(ir.Label("b")); add(nop()); add(br("JNE", "a", true)); add(ret())
+			add(br("JMP", "b", false))
+			add(ir.Label("a"))
+			add(ir.Label("b"))
+			add(nop())
+			add(br("JNE", "a", true))
+			add(ret())
 		}),
 		mk("self loop", func(add func(ir.Node)) { add(ir.Label("a")); add(br("JMP", "a", false)) }),
 		mk("conditional self loop, falls off the end", func(add func(ir.Node)) { add(ir.Label("a")); add(br("JNE", "a", true)) }),
@@ -294,18 +302,43 @@ func cfgCorpus() []*Prog {
 		mk("label then only comment at end", func(add func(ir.Node)) { add(nop()); add(ir.Label("e")); add(ir.NewComment("x")) }),
 		mk("undefined label", func(add func(ir.Node)) { add(br("JMP", "nowhere", false)); add(ret()) }),
 		mk("branch with register target", func(add func(ir.Node)) {
-			add(&ir.Instruction{Opcode: "JMP", Operands: opsReg(), IsBranch: true}); add(ret())
+			add(&ir.Instruction{Opcode: "JMP", Operands: opsReg(), IsBranch: true})
+			add(ret())
 		}),
 		mk("branch without operands", func(add func(ir.Node)) { add(&ir.Instruction{Opcode: "JMP", IsBranch: true}); add(ret()) }),
-		mk("unreachable block", func(add func(ir.Node)) { add(ret()); add(nop()); add(ir.Label("u")); add(nop()); add(br("JMP", "u", false)) }),
+		mk("unreachable block", func(add func(ir.Node)) {
+			add(ret())
+			add(nop())
+			add(ir.Label("u"))
+			add(nop())
+			add(br("JMP", "u", false))
+		}),
 		mk("jump into and out of loop", func(add func(ir.Node)) {
-			add(br("JMP", "mid", false)); add(ir.Label("top")); add(nop()); add(ir.Label("mid")); add(nop()); add(br("JNE", "top", true)); add(br("JE", "out", true)); add(br("JMP", "top", false)); add(ir.Label("out")); add(ret())
+			add(br("JMP", "mid", false))
+			add(ir.Label("top"))
+			add(nop())
+			add(ir.Label("mid"))
+			add(nop())
+			add(br("JNE", "top", true))
+			add(br("JE", "out", true))
+			add(br("JMP", "top", false))
+			add(ir.Label("out"))
+			add(ret())
 		}),
 		mk("terminal conditional branch (both flags)", func(add func(ir.Node)) {
-			add(ir.Label("a")); add(&ir.Instruction{Opcode: "X", Operands: opsLabel("a"), IsBranch: true, IsConditional: true, IsTerminal: true}); add(nop())
+			add(ir.Label("a"))
+			add(&ir.Instruction{Opcode: "X", Operands: opsLabel("a"), IsBranch: true, IsConditional: true, IsTerminal: true})
+			add(nop())
 		}),
 		mk("referenced label sits on a jump to the following label", func(add func(ir.Node)) {
-			add(nop()); add(br("JNE", "x", true)); add(nop()); add(ir.Label("x")); add(br("JMP", "t", false)); add(ir.Label("t")); add(nop()); add(ret())
+			add(nop())
+			add(br("JNE", "x", true))
+			add(nop())
+			add(ir.Label("x"))
+			add(br("JMP", "t", false))
+			add(ir.Label("t"))
+			add(nop())
+			add(ret())
 		}),
 		mk("referenced label sits on a jump to the following label; a register is live only along that edge", func(add func(ir.Node)) {
 			ins := func(i *ir.Instruction, err error) {
@@ -325,7 +358,14 @@ func cfgCorpus() []*Prog {
 			add(ret())
 		}),
 		mk("chain of jumps to following labels, each label referenced from above", func(add func(ir.Node)) {
-			add(br("JE", "a", true)); add(br("JNE", "b", true)); add(ir.Label("a")); add(br("JMP", "b", false)); add(ir.Label("b")); add(br("JMP", "c", false)); add(ir.Label("c")); add(ret())
+			add(br("JE", "a", true))
+			add(br("JNE", "b", true))
+			add(ir.Label("a"))
+			add(br("JMP", "b", false))
+			add(ir.Label("b"))
+			add(br("JMP", "c", false))
+			add(ir.Label("c"))
+			add(ret())
 		}),
 		mk("empty function", func(add func(ir.Node)) {}),
 		mk("only a label", func(add func(ir.Node)) { add(ir.Label("a")) }),
